@@ -11,6 +11,7 @@ static struct cmd cmds[] = {
   {"c03e", cmd_c03e},
   {"c04", cmd_c04},
   {"c02", cmd_c02},
+  {"c05", cmd_c05},
   {NULL, NULL}
 };
 int main(int argc, char **argv) {
